@@ -951,6 +951,8 @@ def decorate(c, rng):
                 t.setdefault('c19', {}).setdefault('prints', True)
                 if c.get('verbosity') is None or rng.random() < 0.3:
                     t['c19']['verbosity'] = rng.choice([2, 2, 1])
+    if 'model' in c:
+        c['model'] = runlib.expand(c)      # outcomes / calc_first may have changed
     return c
 
 
